@@ -1018,7 +1018,7 @@ func runShutdownRace(k *vf.Case) {
 	r := k.R
 	prevProcs := runtime.GOMAXPROCS(vf.Pick(r, []int{2, 4, 16}))
 	defer runtime.GOMAXPROCS(prevProcs)
-	kind := vf.Pick(r, []string{"bsp-blocking", "bsp-blocking", "bsp-dropping", "log-batch", "periodic"})
+	kind := vf.Pick(r, []string{"bsp-blocking", "bsp-blocking", "bsp-dropping", "log-batch", "periodic", "simple-span"}) // (the log SimpleProcessor forwards to its exporter whatever happened before: the exporter contract covers it)
 	P := vf.Pick(r, []int{4, 8, 16})
 	per := 20 + r.Intn(60)
 	d := time.Duration(r.Intn(300)) * time.Microsecond
@@ -1041,6 +1041,18 @@ func runShutdownRace(k *vf.Case) {
 		tr := tp.Tracer("f")
 		emit = func(int) { _, sp := tr.Start(context.Background(), "s"); sp.End() }
 		flush, shutdown, shutdownCount, elog = tp.ForceFlush, tp.Shutdown, e.shutdowns.Load, &e.exportLog
+	case "simple-span":
+		e := &slowSpanExp{d: d}
+		tp := sdktrace.NewTracerProvider(sdktrace.WithSpanProcessor(sdktrace.NewSimpleSpanProcessor(e)))
+		tr := tp.Tracer("f")
+		emit = func(int) { _, sp := tr.Start(context.Background(), "s"); sp.End() }
+		flush, shutdown, shutdownCount, elog = tp.ForceFlush, tp.Shutdown, e.shutdowns.Load, &e.exportLog
+	case "simple-log":
+		e := &slowLogExp{d: d}
+		lp := sdklog.NewLoggerProvider(sdklog.WithProcessor(sdklog.NewSimpleProcessor(e)))
+		lg := lp.Logger("f")
+		emit = func(i int) { var rec log.Record; rec.SetBody(log.IntValue(i)); lg.Emit(context.Background(), rec) }
+		flush, shutdown, shutdownCount, elog = lp.ForceFlush, lp.Shutdown, e.shutdowns.Load, &e.exportLog
 	case "log-batch":
 		e := &slowLogExp{d: d}
 		lp := sdklog.NewLoggerProvider(sdklog.WithProcessor(sdklog.NewBatchProcessor(e, sdklog.WithMaxQueueSize(vf.Pick(r, []int{1, 2, 8})), sdklog.WithExportMaxBatchSize(vf.Pick(r, []int{1, 2, 8})),
